@@ -131,9 +131,19 @@ fn gen(four: bool, c: &mut Chooser) -> Case {
         });
         let mut cell = SCell { name: CELL_NAMES[i].into(), layout: None, abs: None, view_names: None };
         // the views carry names of their own, different from the cell's
-        if (has_layout || has_abs) && c.cost(2, "view-names") == 1 {
-            tags.push("views:own-names");
-            cell.view_names = Some((format!("{}_lay", CELL_NAMES[i]), format!("{}_abstract", CELL_NAMES[i])));
+        if has_layout || has_abs {
+            match c.cost(3, "view-names") {
+                1 => {
+                    tags.push("views:own-names");
+                    cell.view_names = Some((format!("{}_lay", CELL_NAMES[i]), format!("{}_abstract", CELL_NAMES[i])));
+                }
+                // views without a name of their own inside a named cell
+                2 => {
+                    tags.push("views:own-names");
+                    cell.view_names = Some((String::new(), String::new()));
+                }
+                _ => {}
+            }
         }
         if has_layout {
             let mut lay = SLayout::default();
@@ -220,6 +230,27 @@ fn gen(four: bool, c: &mut Chooser) -> Case {
             cell.abs = Some(SAbs { outline, ports, blockages });
         }
         cells.push(cell);
+    }
+    // costed: the last cell goes by the library's name, a dot and the first cell's name ("lib14.ca" next to "ca"), or by
+    // a name with a dot / slash of its own; references to it follow
+    if cells.len() >= 2 {
+        let alt = c.cost(3, "cell-name-with-a-dot");
+        if alt != 0 {
+            tags.push("names:dotted");
+            let last = cells.len() - 1;
+            let old = cells[last].name.clone();
+            let new = if alt == 1 { format!("lib14.{}", cells[0].name) } else { "a.b/c".to_string() };
+            cells[last].name = new.clone();
+            for cell in cells.iter_mut() {
+                if let Some(l) = cell.layout.as_mut() {
+                    for i in l.insts.iter_mut() {
+                        if i.cell == old {
+                            i.cell = new.clone();
+                        }
+                    }
+                }
+            }
+        }
     }
     let mut slots: Vec<Option<SCell>> = cells.into_iter().map(Some).collect();
     let listed: Vec<SCell> = order.iter().map(|&i| slots[i].take().unwrap()).collect();
@@ -541,7 +572,7 @@ impl CaseDriver for C14 {
     fn describe(&self, tier: Tier) -> Describe {
         Describe {
             rule: format!(
-                "{} cells (or none at all) forming EVERY DAG (every subset of the edges i -> j, i < j, each edge an instance) listed in EVERY order; the last cell with layout / layout+abstract / abstract-only views or no view at all (a placeholder cell) (all free); costed (deviation bound {}): units Nano/Micro/Angstrom, abstract view on the other cells, each instance's orientation (8, and the rotation stated as -90 / -180 / -270) and offset (incl. 2e9), a second placement with angle Some(0), the layout's shape set (default: 7 shapes of all three kinds with and without nets interleaved over 2 layers x 2 purposes; none; one rectangle; all on one layer/purpose with a reversed-corner rectangle; clockwise polygon + negative rectangle; rectangles given by every pair of opposite corners, a degenerate rectangle, an explicitly closed polygon, a path returning to its start and a path stating a point twice in a row; four-vertex polygons: an axis-parallel rectangle in both windings, a parallelogram, a right trapezoid; shapes on a third layer whose purposes are numbered 20 / 256 / 300 / -5, the message additionally drawing on its undeclared purpose 0), annotations 1/0/2, abstract ports 1/0/2 (second port on two layers) or one port over two layers holding each of the 9 pairs of shape kinds (rectangle, polygon, path), or three ports two of which share a net, or three ports the middle one without any geometry, blockages on 1/0/2 layers or the same 9 kind pairs, outline rectangle / L, layout and abstract views named differently from their cell. Each case is checked raw->proto->raw (fresh and original Layers) and proto->raw->proto (message built independently by the harness). Non-trivial = has an instance or an abstract.",
+                "{} cells (or none at all) forming EVERY DAG (every subset of the edges i -> j, i < j, each edge an instance) listed in EVERY order; the last cell with layout / layout+abstract / abstract-only views or no view at all (a placeholder cell) (all free); costed (deviation bound {}): units Nano/Micro/Angstrom, abstract view on the other cells, each instance's orientation (8, and the rotation stated as -90 / -180 / -270) and offset (incl. 2e9), a second placement with angle Some(0), the layout's shape set (default: 7 shapes of all three kinds with and without nets interleaved over 2 layers x 2 purposes; none; one rectangle; all on one layer/purpose with a reversed-corner rectangle; clockwise polygon + negative rectangle; rectangles given by every pair of opposite corners, a degenerate rectangle, an explicitly closed polygon, a path returning to its start and a path stating a point twice in a row; four-vertex polygons: an axis-parallel rectangle in both windings, a parallelogram, a right trapezoid; shapes on a third layer whose purposes are numbered 20 / 256 / 300 / -5, the message additionally drawing on its undeclared purpose 0), annotations 1/0/2, abstract ports 1/0/2 (second port on two layers) or one port over two layers holding each of the 9 pairs of shape kinds (rectangle, polygon, path), or three ports two of which share a net, or three ports the middle one without any geometry, blockages on 1/0/2 layers or the same 9 kind pairs, outline rectangle / L, layout and abstract views named differently from their cell or not named at all, a cell named like the library, a dot and another cell / with a dot and a slash of its own. Each case is checked raw->proto->raw (fresh and original Layers) and proto->raw->proto (message built independently by the harness). Non-trivial = has an instance or an abstract.",
                 if self.four { "4".to_string() } else { "1..3".to_string() },
                 self.bound(tier)
             ),
